@@ -8,29 +8,22 @@
    for ONE redundancy group shared by TWO nodes, plus the "network" between them (two bags
    of in-flight heartbeat snapshots).  Definitions only; proofs are in Proofs.v.
 
-   A [variant] selects, independently, the current behaviour or the repaired behaviour for
-   the two defects found (see notes/C10.md):
-     fix_hb = false   PeerHeartbeatUpdate as in /repo today (a STANDBY node without preempt
-                      never promotes itself, even when the peer reports STANDBY too)
-     fix_hb = true    + rule "STANDBY, peer reports STANDBY, I win the election -> ACTIVE"
-     fix_if = false   handleInterfaceEvent counts notifications (ifDownCount++ / --)
-     fix_if = true    handleInterfaceEvent counts interfaces (a set of interfaces that are down)
-     fix_fc = false   handlePeerHeartbeat: the first heartbeat after a peer loss is only recorded
-                      when the group is ACTIVE or STANDBY (possible after a forced switchover out
-                      of STANDBY_ALONE), so a dual-active pair needs a second heartbeat
-     fix_fc = true    ... the PeerHeartbeatUpdate rules are applied to that heartbeat too, and an
-                      ACTIVE node that loses the election also yields to a peer reporting ACTIVE_SOLO
-                      (today only to ACTIVE, so the pair stays dual-active until the solo node has
-                      re-elected and sent another heartbeat)
-
-     fix_sa = false   handlePeerHeartbeat re-discovers the peer only on first contact, in WAITING or
-                      in ACTIVE_SOLO; it relies on "STANDBY_ALONE implies peerNodeID == ''", which
-                      handlePeerLost breaks when a heartbeat is handled between its two critical
-                      sections (visible only in the fine-grained model below)
-     fix_sa = true    ... also in STANDBY_ALONE
-     fix_ia = false   handleInterfaceEvent updates the down count under m.mu and calls
-                      AdjustPriority after releasing it (two critical sections)
-     fix_ia = true    ... AdjustPriority is called before m.mu is released (one critical section)
+   A [variant] selects, independently for each of the five defects found and since fixed in /repo
+   (notes/C10.md section 4), the ORIGINAL behaviour (flag false) or the behaviour of /repo HEAD
+   (flag true).  The original behaviours are kept only for the historical [_refuted] witnesses; the
+   correspondence check runs [Head] alone.
+     fix_hb  (8396862)  original: PeerHeartbeatUpdate never promotes a STANDBY node without preempt, even
+                        when the peer reports STANDBY too.  HEAD: + rule "STANDBY, peer STANDBY, I win -> ACTIVE"
+     fix_if  (82065c3)  original: handleInterfaceEvent counts notifications (ifDownCount++ / --).
+                        HEAD: counts interfaces (set of interfaces that are down)
+     fix_fc  (b0a3819)  original: the first heartbeat after a peer loss is only recorded when the group is
+                        ACTIVE or STANDBY, and ACTIVE yields to ACTIVE only.  HEAD: the PeerHeartbeatUpdate
+                        rules are applied to that heartbeat too; ACTIVE also yields to ACTIVE_SOLO
+     fix_sa  (466d014)  original: handlePeerHeartbeat re-discovers the peer only on first contact, in WAITING
+                        or in ACTIVE_SOLO (relying on "STANDBY_ALONE implies peerNodeID == ''", which
+                        interleaved calls break).  HEAD: also in STANDBY_ALONE
+     fix_ia  (e4bb362)  original: handleInterfaceEvent calls AdjustPriority after releasing m.mu (two critical
+                        sections).  HEAD: before releasing it (one critical section)
 
    Node ids are Go strings compared bytewise: lists of bytes with [str_ltb].
    Priorities are uint32 in Go; they are Z here, the int32 conversions of
@@ -39,9 +32,10 @@ From OV Require Import Common.Base.
 Local Open Scope Z_scope.
 
 Record variant := mkVariant { fix_hb : bool; fix_if : bool; fix_fc : bool; fix_sa : bool; fix_ia : bool }.
-Definition Repaired  := mkVariant true true true true true.       (* all five repairs *)
-Definition Head      := mkVariant true true true false false.     (* /repo HEAD: first three fixes committed *)
-Definition Defective := mkVariant false false false false false.  (* the code before any fix *)
+Definition Head      := mkVariant true true true true true.       (* /repo HEAD: all five fixes committed *)
+Definition Repaired  := Head.                                     (* older name, same thing *)
+Definition BeforeRaceFixes := mkVariant true true true false false. (* /repo at 43d3a11: before 466d014 and e4bb362 *)
+Definition Defective := mkVariant false false false false false.  (* /repo at c51605a: before any fix *)
 
 (* SRGState *)
 Inductive sst := Init | Waiting | Ready | Active | Standby | ActiveSolo | StandbyAlone.
@@ -162,11 +156,11 @@ Definition hb_update (v : variant) (c : cfg) (n : node) (p : Z) (peerid : list N
   let n := set_peer n p ps in
   if c_preempt c && sst_eqb (n_st n) Standby && wins c n peerid then transition_to n Active
   else if sst_eqb (n_st n) Active
-          && (sst_eqb ps Active || (fix_fc v && sst_eqb ps ActiveSolo))   (* 2nd disjunct: repaired only *)
+          && (sst_eqb ps Active || (fix_fc v && sst_eqb ps ActiveSolo))   (* 2nd disjunct: since b0a3819 *)
           && negb (wins c n peerid)
   then transition_to n Standby
   else if fix_hb v && sst_eqb (n_st n) Standby && sst_eqb ps Standby && wins c n peerid
-  then transition_to n Active                         (* repaired only *)
+  then transition_to n Active                         (* since 8396862 / b0a3819 *)
   else (n, []).
 
 (* HeartbeatMessage restricted to the group: NodeId, SRGStatus.State, SRGStatus.Priority;
@@ -186,7 +180,7 @@ Definition handle_hb (v : variant) (c : cfg) (n : node) (m : hb) : node * list t
     let '(n1, t1) := peer_discovered n (h_prio m) (h_st m) in
     if sst_eqb (n_st n1) Ready then
       let '(n2, t2) := elect c n1 (h_id m) in (n2, t1 ++ t2)
-    else if fix_fc v then                                  (* repaired only *)
+    else if fix_fc v then                                  (* since 8396862 / b0a3819 *)
       let '(n2, t2) := hb_update v c n1 (h_prio m) (h_id m) (h_st m) in (n2, t1 ++ t2)
     else (n1, t1)
   else hb_update v c n (h_prio m) (h_id m) (h_st m).
